@@ -2154,7 +2154,9 @@ def _config_str(
     if _REGISTRY[selector].is_method:
       method_name = parts.pop(0)
       parts[0] += f'.{method_name}'  # parts[0] is the class name.
-    return parts
+    # Names that differ only in case tie above; break ties on the exact key so
+    # that the output does not depend on the order bindings were made in.
+    return parts, key_tuple[0]
 
   import_manager = ImportManager(_IMPORTS)
   if import_manager.dynamic_registration:
